@@ -82,7 +82,17 @@ def gen(rng, tier):
             'style': style, 'range': rng_class, 'mustyle': mustyle, 'wseed': rng.randrange(1 << 30),
             'fourier': rng.random() < 0.85, 'nthread': rng.choice([1, 2, 3, 4, 5, 8, 16]),
             'sched': gen_sched(rng), 'compiled': rng.random() < 0.25,
-            'prev_nthread': rng.choice([None, 1, 2, 5, 16])}
+            'prev_nthread': rng.choice([None, 1, 2, 5, 16]),
+            'huge': None}
+
+
+def sweep(tier):
+    """Always-run cases: meshes whose single all-covering bin holds more than 2**24 modes (compiled)."""
+    base = {'which': 'kmu', 'n': 2, 'L': 2 * np.pi, 'kedges': [0.0, 1.5], 'muedges': [0.0, 1.0], 'poles': [], 'pimax': 1.0,
+            'pimax_class': 'at', 'Npi': 1, 'style': 'halfint', 'range': 'all', 'mustyle': 'linear', 'wseed': 1, 'fourier': True,
+            'nthread': 2, 'sched': {'policy': 'static', 'strategy': 'serial', 'seed': 1}, 'compiled': False, 'prev_nthread': None}
+    for n in ((256, 320, 400) if tier == 'thorough' else (256, 320)):
+        yield dict(base, huge=n)
 
 
 def _weights(case):
@@ -168,6 +178,41 @@ def _oracle(out, site, case, res, ref):
                     return
 
 
+def _huge(case, out):
+    """Compiled kernel on a mesh whose bins hold more than 2**24 modes (sizes the interpreted simulation cannot
+    reach).  k edges are tie-free (half-integer squares), one mu bin; the expected counts are computed exactly,
+    slab by slab, in integer arithmetic."""
+    from abacusnbody.analysis import power_spectrum as rps
+    n = case['huge']
+    L = 2 * np.pi
+    e2 = np.array([0.0, int((0.31 * n) ** 2) + 0.5, int((0.62 * n) ** 2) + 0.5, 3.0 * n * n])
+    kedges = np.sqrt(e2)
+    f = np.arange(n)
+    f = np.where(f < (n + 1) // 2, f, f - n).astype(np.int64)
+    kz = np.arange(n // 2 + 1, dtype=np.int64)
+    mult = np.where((kz == 0) | (2 * kz == n), 1, 2).astype(np.int64)
+    want = np.zeros(3, dtype=np.int64)
+    jk2 = (f * f)[:, None] + (kz * kz)[None, :]
+    for i in range(n):
+        k2 = jk2 + f[i] * f[i]
+        b = np.searchsorted(e2, k2.ravel(), side='right') - 1
+        ok = (b >= 0) & (b < 3)
+        want += np.bincount(b[ok], weights=np.broadcast_to(mult, k2.shape).ravel()[ok], minlength=3).astype(np.int64)[:3]
+    w = np.ones((n, n, n // 2 + 1), dtype=np.float32)
+    for T in (1, 2, 3, 16):
+        res = rps.bin_kmu(n, L, kedges, np.array([0.0, 1.0]), w, nthread=T)
+        cnt = np.asarray(res[1])[:, 0].astype(np.int64)
+        if not np.array_equal(cnt, want):
+            violation(out, 'modes-miscounted-on-large-mesh', 'bin_kmu[compiled]',
+                      {'mesh': n, 'nthread': T, 'count': cnt.tolist(), 'expected': want.tolist()})
+            return
+        if np.abs(np.asarray(res[0])[:, 0] - 1.0).max() > 1e-3:
+            violation(out, 'wrong-mean-value', 'bin_kmu[compiled]', {'mesh': n, 'nthread': T})
+            return
+    bump(out['probes'], 'mesh-with-more-than-2^24-modes-per-bin')
+    out['events'].append(['huge', n, want.tolist()])
+
+
 def run(case):
     from abx_sim.analysis import power_spectrum as ps
     from e1_threads import harness as H
@@ -251,6 +296,8 @@ def run(case):
     out['events'].append([site, n, case['nthread'], int(cT.sum()), summ['regions'], summ['switches']])
     if case.get('compiled'):
         _compiled(case, w, ref, site, out, res1)
+    if case.get('huge') and not out['violations']:
+        _huge(case, out)
     if n >= 2 and int(ref['cnt_hi'].sum()) > 0:
         out['nontrivial'] = [site, n, case['style'], case['range'], len(case['muedges']) - 1 if site == 'bin_kmu' else case['Npi'],
                              case['poles'] if site == 'bin_kmu' else case['pimax_class'], case['nthread'],
